@@ -1,8 +1,9 @@
 import DiscretModel.Model.Serve
 /-
-Lemmas for C08 (serving side of a connection): the table discipline (`GoodTable`), what each database
-read returns (`fetch_room`), the connection invariant `Inv` (allowed rooms are justified by a membership
-at some earlier time) and its preservation by every operation. Core Lean only.
+Lemmas for C08 (serving side of a connection): the table discipline (`GoodTable`, `Rechecked`), what each
+database read returns (`fetch_room`), what the membership re-check of the prelude leaves in the allowed
+table (`recheck_spec`), the connection invariant `Inv` (allowed rooms are justified by a membership at some
+earlier time) and its preservation by every operation. Core Lean only.
 -/
 namespace Discret.Serve
 open Discret.Room
@@ -25,6 +26,25 @@ def goodEntry (e : Entry) : Bool :=
 def GoodTable (tbl : List Entry) : Prop := tbl.all goodEntry = true
 
 instance (tbl : List Entry) : Decidable (GoodTable tbl) := by unfold GoodTable; infer_instance
+
+/-- every request kind guarded by the allowed table is covered by the membership re-check of the prelude -/
+def Rechecked (tbl : List Entry) : Prop :=
+  tbl.all (fun e => e.guard != .allowedContainsRoom || e.recheck) = true
+
+instance (tbl : List Entry) : Decidable (Rechecked tbl) := by unfold Rechecked; infer_instance
+
+/-- the code re-validates membership at every request: the defect switch is off and the regenerated
+    table lists every room-guarded request kind in the re-check -/
+def Rechecks (d : Defects) (cd : Code) : Prop := d.allowedNeverRevoked = false ∧ Rechecked cd.table
+
+instance (d : Defects) (cd : Code) : Decidable (Rechecks d cd) := by unfold Rechecks; infer_instance
+
+theorem lookup_rechecked {tbl : List Entry} (h : Rechecked tbl) {k : QueryKind} {e : Entry}
+    (hl : lookup tbl k = some e) (hg : e.guard = .allowedContainsRoom) : e.recheck = true := by
+  unfold lookup at hl
+  have hm := List.mem_of_find?_eq_some hl
+  have := (List.all_eq_true.mp h) e hm
+  simpa [hg] using this
 
 theorem lookup_good {tbl : List Entry} (h : GoodTable tbl) {k : QueryKind} {e : Entry}
     (hl : lookup tbl k = some e) : e.kind = k ∧ e.guard = guardFor k ∧ e.source = sourceFor k := by
@@ -66,15 +86,18 @@ structure WInv (w : World) : Prop where
   current : ∀ room ∈ w.rooms, ∃ t, (t, room) ∈ w.history ∧ t ≤ w.now
   past : ∀ p ∈ w.history, p.1 ≤ w.now
 
-/-- why room `r` is in the allowed table of a connection bound to key `k` -/
-def Admitted (d : Defects) (w : World) (k : Key) (r : RoomId) : Prop :=
-  ∃ p ∈ w.history, ∃ t, p.2.id = r ∧ p.1 ≤ t ∧ t ≤ w.now ∧
-    (p.2.isUserValidAt k t = true ∨ (d.hasUserCountsDisabled = true ∧ p.2.hasUser k = true))
+/-- the event handler admits a key that is merely named in a user list, enabled or not -/
+def countsDisabled (d : Defects) (ev : EventRule) : Bool := d.hasUserCountsDisabled || ev.admit == .hasUser
 
-structure Inv (d : Defects) (s : State) : Prop where
+/-- why room `r` is in the allowed table of a connection bound to key `k` -/
+def Admitted (d : Defects) (ev : EventRule) (w : World) (k : Key) (r : RoomId) : Prop :=
+  ∃ p ∈ w.history, ∃ t, p.2.id = r ∧ p.1 ≤ t ∧ t ≤ w.now ∧
+    (p.2.isUserValidAt k t = true ∨ (countsDisabled d ev = true ∧ p.2.hasUser k = true))
+
+structure Inv (d : Defects) (ev : EventRule) (s : State) : Prop where
   world : WInv s.w
   unauth : s.c.key = none → s.c.allowed = []
-  admitted : ∀ r ∈ s.c.allowed, ∃ k, s.c.key = some k ∧ Admitted d s.w k r
+  admitted : ∀ r ∈ s.c.allowed, ∃ k, s.c.key = some k ∧ Admitted d ev s.w k r
 
 theorem mem_insertRoom {l : List RoomId} {r x : RoomId} (h : x ∈ insertRoom l r) : x ∈ l ∨ x = r := by
   unfold insertRoom at h
@@ -94,37 +117,92 @@ theorem mem_foldl_insertRoom {rooms l : List RoomId} {x : RoomId} (h : x ∈ roo
       · exact Or.inr (by simp [h2])
     · exact Or.inr (by simp [h1])
 
-theorem admitted_mono {d : Defects} {w w' : World} {k : Key} {r : RoomId}
-    (hh : ∀ p ∈ w.history, p ∈ w'.history) (hn : w.now ≤ w'.now) (h : Admitted d w k r) : Admitted d w' k r := by
+theorem admitted_mono {d : Defects} {ev : EventRule} {w w' : World} {k : Key} {r : RoomId}
+    (hh : ∀ p ∈ w.history, p ∈ w'.history) (hn : w.now ≤ w'.now) (h : Admitted d ev w k r) :
+    Admitted d ev w' k r := by
   obtain ⟨p, hp, t, h1, h2, h3, h4⟩ := h
   exact ⟨p, hh p hp, t, h1, h2, Int.le_trans h3 hn, h4⟩
 
-/-- the allowed table after a request: unchanged, or (first room list) the rooms valid now -/
-theorem serve_allowed {d : Defects} {tbl : List Entry} {w : World} {own : Key} {c : Conn} {q : Query} :
-    (serve d tbl w own c q).1.key = c.key ∧ (serve d tbl w own c q).1.ready = c.ready ∧
-    ∀ x ∈ (serve d tbl w own c q).1.allowed, x ∈ c.allowed ∨ ∃ k, c.key = some k ∧ x ∈ roomsForPeer w k := by
+/-- the membership re-check of the prelude: it keeps the key and the readiness, only ever removes rooms,
+    and — when the entry is covered and the defect switch is off — a requested room that is still in the
+    table afterwards is one of which the proven key is a valid member NOW -/
+theorem recheck_spec (d : Defects) (e : Entry) (w : World) (c : Conn) (room : Option RoomId) :
+    (recheck d e w c room).key = c.key ∧ (recheck d e w c room).ready = c.ready ∧
+    (∀ x ∈ (recheck d e w c room).allowed, x ∈ c.allowed) ∧
+    (e.recheck = true → d.allowedNeverRevoked = false → ∀ r, room = some r →
+      r ∈ (recheck d e w c room).allowed → ∃ k, c.key = some k ∧ memberNow w k r = true) := by
+  unfold recheck
+  split
+  · cases room with
+    | none => exact ⟨rfl, rfl, fun x hx => hx, fun _ _ r hr => by cases hr⟩
+    | some r0 =>
+      simp only
+      split
+      · cases hk : c.key with
+        | none =>
+          refine ⟨by simp, rfl, fun x hx => ?_, fun _ _ r hr hm => ?_⟩
+          · simp only [Bool.false_eq_true, if_false] at hx
+            exact (List.mem_filter.mp hx).1
+          · cases hr
+            simp only [Bool.false_eq_true, if_false] at hm
+            have := (List.mem_filter.mp hm).2
+            simp at this
+        | some k =>
+          simp only
+          split
+          · rename_i hm
+            exact ⟨hk, rfl, fun x hx => hx, fun _ _ r hr _ => by cases hr; exact ⟨k, rfl, hm⟩⟩
+          · refine ⟨rfl, rfl, fun x hx => (List.mem_filter.mp hx).1, fun _ _ r hr hm => ?_⟩
+            cases hr
+            have := (List.mem_filter.mp hm).2
+            simp at this
+      · rename_i hnc
+        refine ⟨rfl, rfl, fun x hx => hx, fun _ _ r hr hm => ?_⟩
+        cases hr
+        exact absurd (by simpa using hm) hnc
+  · rename_i hoff
+    refine ⟨rfl, rfl, fun x hx => hx, fun h1 h2 => ?_⟩
+    simp [h1, h2] at hoff
+
+/-- the allowed table after an arm: unchanged, or (first room list) the rooms valid now -/
+theorem serveArm_allowed {e : Entry} {w : World} {own : Key} {c : Conn} {q : Query} :
+    (serveArm e w own c q).1.key = c.key ∧ (serveArm e w own c q).1.ready = c.ready ∧
+    ∀ x ∈ (serveArm e w own c q).1.allowed, x ∈ c.allowed ∨ ∃ k, c.key = some k ∧ x ∈ roomsForPeer w k := by
+  unfold serveArm
+  split
+  · split
+    · exact ⟨rfl, rfl, fun x hx => Or.inl hx⟩
+    · exact ⟨rfl, rfl, fun x hx => Or.inl hx⟩
+    · split
+      · rename_i k hk
+        refine ⟨rfl, rfl, fun x hx => ?_⟩
+        simp only at hx
+        split at hx
+        · rcases mem_foldl_insertRoom hx with h | h
+          · exact Or.inl h
+          · exact Or.inr ⟨k, hk, h⟩
+        · exact Or.inl hx
+      · exact ⟨rfl, rfl, fun x hx => Or.inl hx⟩
+    · split <;> exact ⟨rfl, rfl, fun x hx => Or.inl hx⟩
+  · split <;> exact ⟨rfl, rfl, fun x hx => Or.inl hx⟩
+
+/-- the allowed table after a request: nothing new, except (first room list) the rooms valid now -/
+theorem serve_allowed {d : Defects} {cd : Code} {w : World} {own : Key} {c : Conn} {q : Query} :
+    (serve d cd w own c q).1.key = c.key ∧ (serve d cd w own c q).1.ready = c.ready ∧
+    ∀ x ∈ (serve d cd w own c q).1.allowed, x ∈ c.allowed ∨ ∃ k, c.key = some k ∧ x ∈ roomsForPeer w k := by
   unfold serve
   split
   · exact ⟨rfl, rfl, fun x hx => Or.inl hx⟩
-  · split
-    · split
-      · exact ⟨rfl, rfl, fun x hx => Or.inl hx⟩
-      · exact ⟨rfl, rfl, fun x hx => Or.inl hx⟩
-      · split
-        · rename_i k hk
-          refine ⟨rfl, rfl, fun x hx => ?_⟩
-          simp only at hx
-          split at hx
-          · rcases mem_foldl_insertRoom hx with h | h
-            · exact Or.inl h
-            · exact Or.inr ⟨k, hk, h⟩
-          · exact Or.inl hx
-        · exact ⟨rfl, rfl, fun x hx => Or.inl hx⟩
-      · split <;> exact ⟨rfl, rfl, fun x hx => Or.inl hx⟩
-    · split <;> exact ⟨rfl, rfl, fun x hx => Or.inl hx⟩
+  · rename_i e _
+    obtain ⟨hk, hr, ha, _⟩ := recheck_spec d e w c q.room?
+    obtain ⟨hk', hr', ha'⟩ := @serveArm_allowed e w own (recheck d e w c q.room?) q
+    refine ⟨hk'.trans hk, hr'.trans hr, fun x hx => ?_⟩
+    rcases ha' x hx with h | ⟨k, hkk, h⟩
+    · exact Or.inl (ha x h)
+    · exact Or.inr ⟨k, hk ▸ hkk, h⟩
 
-theorem roomsForPeer_admitted {d : Defects} {w : World} (hw : WInv w) {k : Key} {x : RoomId}
-    (h : x ∈ roomsForPeer w k) : Admitted d w k x := by
+theorem roomsForPeer_admitted {d : Defects} {ev : EventRule} {w : World} (hw : WInv w) {k : Key} {x : RoomId}
+    (h : x ∈ roomsForPeer w k) : Admitted d ev w k x := by
   simp only [roomsForPeer, List.mem_map, List.mem_filter] at h
   obtain ⟨room, ⟨hm, hv⟩, rfl⟩ := h
   obtain ⟨t, ht, htn⟩ := hw.current room hm
@@ -144,10 +222,10 @@ theorem winv_install {w : World} (hw : WInv w) (room : Room) : WInv (installRoom
     · exact Int.le_refl _
     · exact hw.past p hp
 
-theorem roomEvent_spec (d : Defects) (w : World) (c : Conn) (room : Room) :
-    (roomEvent d w c room).key = c.key ∧ (roomEvent d w c room).ready = c.ready ∧
-    ∀ x ∈ (roomEvent d w c room).allowed,
-      x ∈ c.allowed ∨ (x = room.id ∧ ∃ k, c.key = some k ∧ admits d w room k = true) := by
+theorem roomEvent_spec (d : Defects) (ev : EventRule) (w : World) (c : Conn) (room : Room) :
+    (roomEvent d ev w c room).key = c.key ∧ (roomEvent d ev w c room).ready = c.ready ∧
+    ∀ x ∈ (roomEvent d ev w c room).allowed,
+      x ∈ c.allowed ∨ (x = room.id ∧ ∃ k, c.key = some k ∧ admits d ev w room k = true) := by
   unfold roomEvent
   split
   · exact ⟨rfl, rfl, fun x hx => Or.inl hx⟩
@@ -159,12 +237,24 @@ theorem roomEvent_spec (d : Defects) (w : World) (c : Conn) (room : Room) :
       · exact Or.inl h
       · exact Or.inr ⟨h, k, hk, ha⟩
     · split
-      · exact ⟨rfl, rfl, fun x hx => Or.inl hx⟩
       · refine ⟨rfl, rfl, fun x hx => Or.inl ?_⟩
         exact (List.mem_filter.mp hx).1
+      · exact ⟨rfl, rfl, fun x hx => Or.inl hx⟩
 
-theorem step_inv {d : Defects} {tbl : List Entry} {own : Key} {s : State} (hi : Inv d s) (op : Op) :
-    Inv d (step d tbl own s op).1 := by
+/-- an admission by the event handler is a valid membership now, or (handler counting disabled entries)
+    a mere mention in a user list -/
+theorem admits_spec {d : Defects} {ev : EventRule} {w : World} {room : Room} {k : Key}
+    (h : admits d ev w room k = true) :
+    room.isUserValidAt k w.now = true ∨ (countsDisabled d ev = true ∧ room.hasUser k = true) := by
+  unfold admits at h
+  split at h
+  · rename_i hd; exact Or.inr ⟨by simp [countsDisabled, hd], h⟩
+  · split at h
+    · exact Or.inl h
+    · rename_i he; exact Or.inr ⟨by simp [countsDisabled, he], h⟩
+
+theorem step_inv {d : Defects} {cd : Code} {own : Key} {s : State} (hi : Inv d cd.event s) (op : Op) :
+    Inv d cd.event (step d cd own s op).1 := by
   cases op with
   | auth k ready =>
     simp only [step]
@@ -178,14 +268,14 @@ theorem step_inv {d : Defects} {tbl : List Entry} {own : Key} {s : State} (hi : 
   | setReady b => exact ⟨hi.world, hi.unauth, hi.admitted⟩
   | query q =>
     simp only [step]
-    obtain ⟨hk, _, ha⟩ := @serve_allowed d tbl s.w own s.c q
+    obtain ⟨hk, _, ha⟩ := @serve_allowed d cd s.w own s.c q
     refine ⟨hi.world, fun hn => ?_, fun r hr => ?_⟩
     · simp only [hk] at hn
       have h0 := hi.unauth hn
-      cases hl : (serve d tbl s.w own s.c q).1.allowed with
+      cases hl : (serve d cd s.w own s.c q).1.allowed with
       | nil => rfl
       | cons x rest =>
-        have : x ∈ (serve d tbl s.w own s.c q).1.allowed := by simp [hl]
+        have : x ∈ (serve d cd s.w own s.c q).1.allowed := by simp [hl]
         rcases ha x this with h | ⟨k, hk', _⟩
         · simp [h0] at h
         · simp [hn] at hk'
@@ -202,16 +292,16 @@ theorem step_inv {d : Defects} {tbl : List Entry} {own : Key} {s : State} (hi : 
   | install room =>
     simp only [step]
     have hw' := winv_install hi.world room
-    have hmono : ∀ k r, Admitted d s.w k r → Admitted d (installRoom s.w room) k r := fun k r h =>
+    have hmono : ∀ k r, Admitted d cd.event s.w k r → Admitted d cd.event (installRoom s.w room) k r := fun k r h =>
       admitted_mono (fun p hp => by simp [installRoom, hp]) (by simp [installRoom]) h
-    obtain ⟨hk, _, ha⟩ := roomEvent_spec d (installRoom s.w room) s.c room
+    obtain ⟨hk, _, ha⟩ := roomEvent_spec d cd.event (installRoom s.w room) s.c room
     refine ⟨hw', fun hn => ?_, fun r hr => ?_⟩
     · simp only [hk] at hn
       have h0 := hi.unauth hn
-      cases hl : (roomEvent d (installRoom s.w room) s.c room).allowed with
+      cases hl : (roomEvent d cd.event (installRoom s.w room) s.c room).allowed with
       | nil => rfl
       | cons x rest =>
-        have : x ∈ (roomEvent d (installRoom s.w room) s.c room).allowed := by simp [hl]
+        have : x ∈ (roomEvent d cd.event (installRoom s.w room) s.c room).allowed := by simp [hl]
         rcases ha x this with h | ⟨_, k, hk', _⟩
         · simp [h0] at h
         · simp [hn] at hk'
@@ -220,10 +310,7 @@ theorem step_inv {d : Defects} {tbl : List Entry} {own : Key} {s : State} (hi : 
         exact ⟨k', by simp only [hk, hk''], hmono _ _ had⟩
       · refine ⟨k, by simp only [hk, hk'], (s.w.now, room), by simp [installRoom], s.w.now, hr'.symm, Int.le_refl _,
           by simp [installRoom], ?_⟩
-        unfold admits at hadm
-        split at hadm
-        · rename_i hd; exact Or.inr ⟨hd, hadm⟩
-        · exact Or.inl (by simpa [installRoom] using hadm)
+        simpa [installRoom] using admits_spec hadm
   | world f =>
     simp only [step]
     refine ⟨⟨hi.world.current, hi.world.past⟩, hi.unauth, hi.admitted⟩
@@ -231,56 +318,85 @@ theorem step_inv {d : Defects} {tbl : List Entry} {own : Key} {s : State} (hi : 
 
 /-! ### what an answer can contain -/
 
-theorem serve_data_sound {d : Defects} {tbl : List Entry} {w : World} {own : Key} {c : Conn} {q : Query}
-    {r : RoomId} {items : List Item} (hg : GoodTable tbl) (h : (serve d tbl w own c q).2 = .data r items) :
+theorem serveArm_data_sound {e : Entry} {w : World} {own : Key} {c : Conn} {q : Query}
+    {r : RoomId} {items : List Item} (hgd : e.guard = guardFor q.kind) (hsrc : e.source = sourceFor q.kind)
+    (h : (serveArm e w own c q).2 = .data r items) :
+    q.room? = some r ∧ c.allowed.contains r = true ∧ items = fetch w q := by
+  unfold serveArm at h
+  cases q <;> simp only [Query.kind, guardFor, sourceFor] at hgd hsrc <;>
+    simp only [hgd, hsrc, guardHolds, Query.room?] at h
+  all_goals (repeat' split at h)
+  all_goals simp_all [Query.room?]
+  all_goals (obtain ⟨h1, h2⟩ := h; subst h1; subst h2; simp_all)
+
+/-- a data-bearing answer: the request names the room, the room was in the allowed table, the items are
+    what the room-filtered read returns; and when the code re-checks (`Rechecks`), the proven key is a
+    valid member of the room NOW -/
+theorem serve_data_sound {d : Defects} {cd : Code} {w : World} {own : Key} {c : Conn} {q : Query}
+    {r : RoomId} {items : List Item} (hg : GoodTable cd.table) (h : (serve d cd w own c q).2 = .data r items) :
     q.room? = some r ∧ c.allowed.contains r = true ∧ items = fetch w q ∧
-      (d.allowedNeverRevoked = false → ∃ k, c.key = some k ∧ memberNow w k r = true) := by
+      (Rechecks d cd → ∃ k, c.key = some k ∧ memberNow w k r = true) := by
   unfold serve at h
   split at h
   · simp at h
   · rename_i e he
-    obtain ⟨_, hgd, hsrc⟩ := lookup_good hg he
-    cases q <;> simp only [Query.kind, guardFor, sourceFor] at hgd hsrc <;>
-      simp only [hgd, hsrc, guardHolds, Query.room?] at h
-    all_goals (repeat' split at h)
-    all_goals simp_all [Query.room?]
-    all_goals (obtain ⟨h1, h2⟩ := h; subst h1; subst h2; simp_all)
-    all_goals (intro hd; rename_i hh; rcases hh.2 with h3 | h3
-               · rw [hd] at h3; cases h3
-               · exact h3)
+    obtain ⟨hkind, hgd, hsrc⟩ := lookup_good hg he
+    obtain ⟨hq, hc, hit⟩ := serveArm_data_sound hgd hsrc h
+    obtain ⟨_, _, hsub, hmem⟩ := recheck_spec d e w c q.room?
+    have hc' : r ∈ (recheck d e w c q.room?).allowed := by simpa using hc
+    refine ⟨hq, by simpa using hsub r hc', hit, fun hr => ?_⟩
+    have hguard : e.guard = .allowedContainsRoom := by
+      rw [hgd]
+      cases q <;> simp [Query.room?] at hq <;> rfl
+    exact hmem (lookup_rechecked hr.2 he hguard) hr.1 r hq hc'
 
+theorem serveArm_roomList_sound {e : Entry} {w : World} {own : Key} {c : Conn} {q : Query}
+    {rooms : List RoomId} (hgd : e.guard = guardFor q.kind) (hsrc : e.source = sourceFor q.kind)
+    (h : (serveArm e w own c q).2 = .roomList rooms) :
+    ∃ k, c.key = some k ∧ c.ready = true ∧ rooms = roomsForPeer w k := by
+  unfold serveArm at h
+  cases q <;> simp only [Query.kind, guardFor, sourceFor] at hgd hsrc <;>
+    simp only [hgd, hsrc, guardHolds, Query.room?] at h
+  all_goals (repeat' split at h)
+  all_goals simp_all
 
-theorem serve_roomList_sound {d : Defects} {tbl : List Entry} {w : World} {own : Key} {c : Conn} {q : Query}
-    {rooms : List RoomId} (hg : GoodTable tbl) (h : (serve d tbl w own c q).2 = .roomList rooms) :
+theorem serve_roomList_sound {d : Defects} {cd : Code} {w : World} {own : Key} {c : Conn} {q : Query}
+    {rooms : List RoomId} (hg : GoodTable cd.table) (h : (serve d cd w own c q).2 = .roomList rooms) :
     ∃ k, c.key = some k ∧ c.ready = true ∧ rooms = roomsForPeer w k := by
   unfold serve at h
   split at h
   · simp at h
   · rename_i e he
     obtain ⟨_, hgd, hsrc⟩ := lookup_good hg he
-    cases q <;> simp only [Query.kind, guardFor, sourceFor] at hgd hsrc <;>
-      simp only [hgd, hsrc, guardHolds, Query.room?] at h
-    all_goals (repeat' split at h)
-    all_goals simp_all
+    obtain ⟨hk, hr, _, _⟩ := recheck_spec d e w c q.room?
+    obtain ⟨k, h1, h2, h3⟩ := serveArm_roomList_sound hgd hsrc h
+    exact ⟨k, hk ▸ h1, hr ▸ h2, h3⟩
 
-theorem serve_fingerprint_sound {d : Defects} {tbl : List Entry} {w : World} {own : Key} {c : Conn} {q : Query}
-    (hg : GoodTable tbl) (h : (serve d tbl w own c q).2 = .fingerprint) : c.key = some own := by
+theorem serveArm_fingerprint_sound {e : Entry} {w : World} {own : Key} {c : Conn} {q : Query}
+    (hgd : e.guard = guardFor q.kind) (hsrc : e.source = sourceFor q.kind)
+    (h : (serveArm e w own c q).2 = .fingerprint) : c.key = some own := by
+  unfold serveArm at h
+  cases q <;> simp only [Query.kind, guardFor, sourceFor] at hgd hsrc <;>
+    simp only [hgd, hsrc, guardHolds, Query.room?] at h
+  all_goals (repeat' split at h)
+  all_goals simp_all
+
+theorem serve_fingerprint_sound {d : Defects} {cd : Code} {w : World} {own : Key} {c : Conn} {q : Query}
+    (hg : GoodTable cd.table) (h : (serve d cd w own c q).2 = .fingerprint) : c.key = some own := by
   unfold serve at h
   split at h
   · simp at h
   · rename_i e he
     obtain ⟨_, hgd, hsrc⟩ := lookup_good hg he
-    cases q <;> simp only [Query.kind, guardFor, sourceFor] at hgd hsrc <;>
-      simp only [hgd, hsrc, guardHolds, Query.room?] at h
-    all_goals (repeat' split at h)
-    all_goals simp_all
+    obtain ⟨hk, _, _, _⟩ := recheck_spec d e w c q.room?
+    exact hk ▸ serveArm_fingerprint_sound hgd hsrc h
 
 /-- before authentication: nothing but silence, a refusal, or the identity proof -/
-theorem serve_unauth {d : Defects} {tbl : List Entry} {w : World} {own : Key} {c : Conn} {q : Query}
-    (hg : GoodTable tbl) (hk : c.key = none) (ha : c.allowed = []) :
-    (serve d tbl w own c q).2 = .silent ∨ (serve d tbl w own c q).2 = .refused ∨
-      (serve d tbl w own c q).2 = .identity := by
-  cases h : (serve d tbl w own c q).2 with
+theorem serve_unauth {d : Defects} {cd : Code} {w : World} {own : Key} {c : Conn} {q : Query}
+    (hg : GoodTable cd.table) (hk : c.key = none) (ha : c.allowed = []) :
+    (serve d cd w own c q).2 = .silent ∨ (serve d cd w own c q).2 = .refused ∨
+      (serve d cd w own c q).2 = .identity := by
+  cases h : (serve d cd w own c q).2 with
   | silent => exact Or.inl rfl
   | refused => exact Or.inr (Or.inl rfl)
   | identity => exact Or.inr (Or.inr rfl)
@@ -288,13 +404,54 @@ theorem serve_unauth {d : Defects} {tbl : List Entry} {w : World} {own : Key} {c
   | roomList rooms => obtain ⟨k, hk', _⟩ := serve_roomList_sound hg h; simp [hk] at hk'
   | data r items => have := (serve_data_sound hg h).2.1; simp [ha] at this
 
-theorem run_inv {d : Defects} {tbl : List Entry} {own : Key} {s : State} (hi : Inv d s) (ops : List Op) :
-    Inv d (run d tbl own s ops).1 := by
+/-- after a request that names room `r`, served or refused: if the code re-checks, `r` is in the allowed
+    table of the connection only if the proven key is a valid member of it NOW -/
+theorem serve_post_allowed {d : Defects} {cd : Code} {w : World} {own : Key} {c : Conn} {q : Query} {r : RoomId}
+    (hg : GoodTable cd.table) (hr : Rechecks d cd) (hq : q.room? = some r)
+    (hmem : r ∈ (serve d cd w own c q).1.allowed) :
+    lookup cd.table q.kind = none ∨ ∃ k, c.key = some k ∧ memberNow w k r = true := by
+  unfold serve at hmem
+  split at hmem
+  · exact Or.inl (by assumption)
+  · rename_i e he
+    right
+    obtain ⟨_, hgd, hsrc⟩ := lookup_good hg he
+    have hguard : e.guard = .allowedContainsRoom := by
+      rw [hgd]
+      cases q <;> simp [Query.room?] at hq <;> rfl
+    obtain ⟨hk, _, _, hm⟩ := recheck_spec d e w c q.room?
+    have hsame : (serveArm e w own (recheck d e w c q.room?) q).1.allowed = (recheck d e w c q.room?).allowed := by
+      unfold serveArm
+      cases q <;> simp only [Query.kind, guardFor, sourceFor] at hgd hsrc <;> simp [Query.room?] at hq <;>
+        simp only [hgd, hsrc] <;> (repeat' split) <;> rfl
+    rw [hsame] at hmem
+    exact hm (lookup_rechecked hr.2 he hguard) hr.1 r hq hmem
+
+theorem run_inv {d : Defects} {cd : Code} {own : Key} {s : State} (hi : Inv d cd.event s) (ops : List Op) :
+    Inv d cd.event (run d cd own s ops).1 := by
   induction ops generalizing s with
   | nil => exact hi
   | cons op ops ih => simp only [run]; exact ih (step_inv hi op)
 
-theorem inv_init {d : Defects} {w : World} (hw : WInv w) : Inv d (State.init w) :=
+theorem inv_init {d : Defects} {ev : EventRule} {w : World} (hw : WInv w) : Inv d ev (State.init w) :=
   ⟨hw, fun _ => rfl, fun r hr => by simp [State.init, Conn.init] at hr⟩
+
+/-- the answer to the `i`-th operation of a run is the answer of `step` in the state reached by the
+    first `i` operations -/
+theorem run_answer {d : Defects} {cd : Code} {own : Key} (s : State) (ops : List Op) (i : Nat) (op : Op)
+    (h : ops[i]? = some op) :
+    (run d cd own s ops).2[i]? = some (step d cd own (run d cd own s (ops.take i)).1 op).2 := by
+  induction ops generalizing s i with
+  | nil => simp at h
+  | cons o rest ih =>
+    cases i with
+    | zero =>
+      simp only [List.getElem?_cons_zero, Option.some.injEq] at h
+      subst h
+      simp [run]
+    | succ j =>
+      simp only [List.getElem?_cons_succ] at h
+      simp only [run, List.take_succ_cons, List.getElem?_cons_succ]
+      exact ih _ j h
 
 end Discret.Serve
